@@ -682,6 +682,12 @@ func (c *StructFieldCode) optionTag() *runtime.StructTag {
 		tag.IsString = false
 		return &tag
 	}
+	if c.tag.IsString && c.typ.Kind() == reflect.Ptr && c.typ.Elem().Kind() == reflect.Ptr {
+		// like encoding/json, the string option reaches through one pointer only
+		tag := *c.tag
+		tag.IsString = false
+		return &tag
+	}
 	return c.tag
 }
 
